@@ -13,7 +13,7 @@ DESCRIPTION = ("Lean: Props/C15.lean (the complete finite table decorator x enab
                "analysis; asserts are mode-independent when they hold). Tie + oracle: 9 child interpreters (python / -O / -OO x "
                "ICONTRACT_SLOW unset / empty / non-empty) build every decorator with every `enabled` setting on the real code "
                "and run a slice of explicitly enabled checker cases, compared across modes and with the model.")
-RULE = ("exhaustive: 3 interpreter modes x 3 environment states x 4 decorators x 4 enabled settings (144 rows) + 9 x N "
+RULE = ("exhaustive: 3 interpreter modes x 3 environment states x 6 decorator placements (4 decorators, require/ensure also on a function that already has a checker) x 4 enabled settings (216 rows) + 9 x N "
         "explicitly enabled checker cases (N seeded random cases of all kinds) compared with the normal-mode run and the model; "
         "distinct = (mode, env, row) / (mode, env, case shape)")
 PROJECTION = "(returned object is the argument?, attributes added, condition call count) per row; (trace, outcome) per case"
@@ -74,7 +74,7 @@ def _children():
 def cases(tier, rng):
     for m in MODES:
         for e in ENVS:
-            for deco in ("require", "ensure", "snapshot", "invariant"):
+            for deco in ("require", "ensure", "snapshot", "invariant", "requireOnChecker", "ensureOnChecker"):
                 for arg in ("dflt", "explicitTrue", "explicitFalse", "slow"):
                     yield "table", {"dom": "config", "mode": m, "env": e, "arg": arg, "deco": deco}
             for i, c in enumerate(_slice()):
